@@ -9,17 +9,7 @@ open Lean AFV.Proto AFV.Nest AFV.Driver.NestJson
   (formats in `AFV/Driver/NestJson.lean`) -/
 def handle (req : Json) : Json :=
   match (field? req "op").bind getStr? with
-  | some "eval" =>
-    match (field? req "arch").bind arch?, (field? req "workload").bind workload?, (field? req "mapping").bind mapping? with
-    | some arch, some (wq, wn), some m =>
-      let an := analytic arch wq (castMapping m)
-      let ex := AFV.NestExec.exec arch wq wn m
-      Json.mkObj [
-        ("analytic", match an with | some r => resultJson r | none => Json.null),
-        ("oversubscribed", match an with | some r => Json.bool (r.oversubscribed arch) | none => Json.null),
-        ("wf", Json.bool (WF arch wn m)),
-        ("exec", execJson ex)]
-    | _, _, _ => err "malformed"
+  | some "eval" => evalReply req
   | _ => err "bad-op"
 
 end AFV.Driver.C05
